@@ -520,8 +520,12 @@ Lemma J_env XS c sg sg' out g : J XS c sg sg' out g -> env_ok sg -> env_ok sg'.
 Proof. induction 1; intro He; auto. Qed.
 
 (* ---- the machine ---- *)
-Definition lruns (e : shenv) (L : list (list line)) (ls : list line) (res : shenv * bytes) : Prop := exists f, lrun f false e L ls = Some res.
-Definition lseeks (e : shenv) (L : list (list line)) (ls : list line) (res : shenv * bytes) : Prop := exists f, lrun f true e L ls = Some res.
+Section WithCalls.
+Variable call : bytes -> list bytes -> shenv -> option (shenv * bytes).
+Variable pos : list bytes.
+
+Definition lruns (e : shenv) (L : list (list line)) (ls : list line) (res : shenv * bytes) : Prop := exists f, lrun call pos f false e L ls = Some res.
+Definition lseeks (e : shenv) (L : list (list line)) (ls : list line) (res : shenv * bytes) : Prop := exists f, lrun call pos f true e L ls = Some res.
 
 Lemma lruns_straight P : forall e e1 o1 L rest res,
   exec_outs e P = Some (e1, o1) -> lruns e1 L rest res -> lruns e L (P ++ rest) (prepend o1 res).
@@ -1225,3 +1229,4 @@ Proof.
   assert (after SN b' [] [] (b', [])) as H0 by (cbn [after]; exists 1%nat; reflexivity).
   pose proof (Hk [] [] (b', []) H0) as Hr. rewrite app_nil_r in Hr. unfold prepend in Hr. cbn [fst snd] in Hr. rewrite app_nil_r in Hr. exact Hr.
 Qed.
+End WithCalls.
